@@ -1,6 +1,6 @@
 """C08 - a proof means the same under every interpreter."""
 import random
-import pi2v, funcs, lem, exprs
+import pi2v, funcs, lem, exprs, pexp
 from pi2v import tkey, py_run
 
 
@@ -34,3 +34,10 @@ def run(v, tier):
         bad = ','.join(f'{a}={b}' for a, b in outs if b != 'ok')
         sig = f"{f[2]}:{c['entry']}:{tkey(c['args'])}"
         v.fail(sig, f"{c['entry']} {tkey(c['args'])[:300]}: clause {f[2]}; failing stacks: {bad[:300]}", {'family': 'interps', 'case': c})
+    # expressions enumerated by the model (MC_ProofExp) with the conclusions the documented rules give them
+    pcases, pres = pexp.run(v, 'C08', limit=400 if quick else None, rng=rng)
+    for f in pres.fails:
+        c = pcases[f[1] - 1]
+        bad = ','.join(f"{i['interp']}={i['out']}" for i in c['interps'] if i['out'] != 'ok')
+        v.fail(f"pexp/{f[2]}:{tkey(pexp.recipe(c['r']))}", f"model-generated expression {tkey(pexp.recipe(c['r']))[:300]}: clause {f[2]}; failing stacks: {bad[:200]}",
+               {'family': 'pexp', 'case': c})
